@@ -25,6 +25,7 @@ constant and bounds every intermediate value, so the model is exact whenever
 Bytes are `Nat` (< 256 by construction of the scripts).
 -/
 import LA.Model.Util
+import LA.Gen.Status
 namespace LA.RD
 
 /-- The negative status codes. -/
@@ -35,11 +36,13 @@ inductive Err | retry | warn | failed | fatal
 inductive St | ok | eof | err (e : Err)
   deriving DecidableEq, Repr
 
+/-- Numeric values (extracted from archive.h): the read core compares them. -/
 def Err.code : Err → Int
-  | .retry => -10 | .warn => -20 | .failed => -25 | .fatal => -30
+  | .retry => LA.Gen.Status.archiveRetry | .warn => LA.Gen.Status.archiveWarn
+  | .failed => LA.Gen.Status.archiveFailed | .fatal => LA.Gen.Status.archiveFatal
 
 def St.code : St → Int
-  | .ok => 0 | .eof => 1 | .err e => e.code
+  | .ok => LA.Gen.Status.archiveOk | .eof => LA.Gen.Status.archiveEof | .err e => e.code
 
 /-- `a->archive.state`. -/
 inductive AState | new | header | data | eof | closed | fatal
